@@ -57,6 +57,8 @@ pub struct Policy {
     pending_intr: bool,
     pub interrupts: u64,
     pub short_calls: u64,
+    /// calls served since the last reset: a runaway retry loop in the code under test is cut off
+    pub served: u64,
 }
 
 impl Policy {
@@ -71,6 +73,7 @@ impl Policy {
             pending_intr: true,
             interrupts: 0,
             short_calls: 0,
+            served: 0,
         }
     }
 }
@@ -155,6 +158,12 @@ pub fn io_error(kind: &str) -> io::Error {
 pub fn plan(is_read: bool, len: usize) -> Result<usize, io::Error> {
     POLICY.with(|p| {
         let mut p = p.borrow_mut();
+        // watchdog: no scenario needs anywhere near this many I/O calls; a loop that retries forever
+        // (e.g. re-sending a whole buffer after every interruption) is ended with a plain error
+        p.served += 1;
+        if p.served > 40_000_000 {
+            return Err(io::Error::new(io::ErrorKind::Other, "watchdog: runaway I/O loop (more than 40 million calls in one scenario)"));
+        }
         let sched = if is_read { p.read.clone() } else { p.write.clone() };
         let n = match sched {
             Sched::Whole => len,
